@@ -219,5 +219,27 @@ def _single(col, ctx, np):
                             if not np.array_equal(a_, b_, equal_nan=True):
                                 col.violation('C11/single-kernel/depends-on-threads-or-batching', '%s %s/%s differs between threads=%d batches=%d and threads=%d batches=%d' % (nm, tdt, prec, nt, B, base[key][1], base[key][2]),
                                               {'kind': 'single', 'tdt': tdt, 'prec': prec, 'threads': nt, 'B': B}); break
+    # Kernel-internal data races are not owned by any scheduler here (see DESIGN 1.3 / 4): stress pass, SAMPLING and labelled so - few samples, few
+    # bins/classes and many traces make every lost update visible in integer counts; compared with a plain numpy histogram.
+    big = 200000 if tier == 'quick' else 600000
+    Xb = rng.randint(0, 4, (big, 2)).astype('uint8'); Yb = rng.randint(0, 2, (big, 1)).astype('uint8')
+    exp = np.zeros((2, 4, 2, 1), 'int64')
+    for s_ in range(2):
+        np.add.at(exp[s_, :, :, 0], (Xb[:, s_], Yb[:, 0]), 1)
+    for nt in (1, 8, 16):
+        numba.set_num_threads(nt)
+        for rep in range(2):
+            for B in (1, 3):
+                d = scared.MIADistinguisher(bin_edges=[0, 1, 2, 3, 4], partitions=[0, 1])
+                cuts = [round(i * big / B) for i in range(B + 1)]
+                for a, b in zip(cuts[:-1], cuts[1:]): d.update(Xb[a:b], Yb[a:b])
+                t = scared.TTestThreadAccumulator(precision=np.dtype('float64'))
+                for a, b in zip(cuts[:-1], cuts[1:]): t.update(Xb[a:b])
+                col.evaluations += 1; col.transitions += 2 * B; col.states += 1; col.count('kernel_race_stress_runs')
+                if not np.array_equal(np.asarray(d.accumulators).astype('int64'), exp):
+                    lost = int(exp.sum() - np.asarray(d.accumulators).astype('int64').sum())
+                    col.violation('C11/single-kernel/mia-lost-updates', 'MIA histogram of %d traces x 2 samples with %d numba threads, %d batch(es): %d counts lost' % (big, nt, B, lost), {'kind': 'single', 'threads': nt, 'B': B, 'traces': big})
+                if not np.array_equal(np.asarray(t.sum), Xb.sum(0).astype('float64')) or not np.array_equal(np.asarray(t.sum_squared), (Xb.astype('int64') ** 2).sum(0).astype('float64')):
+                    col.violation('C11/single-kernel/ttest-sums-wrong', 't-test sums of %d traces with %d numba threads, %d batch(es) differ from the exact sums' % (big, nt, B), {'kind': 'single', 'threads': nt, 'B': B, 'traces': big})
     numba.set_num_threads(1)
-    col.sample({'single_kernel_sweep': 'MIA + t-test accumulator', 'thread_counts': _threads(tier)}, limit=1)
+    col.sample({'single_kernel_sweep': 'MIA + t-test accumulator', 'thread_counts': _threads(tier), 'race_stress': 'sampling pass, %d traces' % big}, limit=1)
